@@ -606,6 +606,14 @@ func definitelyNonNil(v ssa.Value) bool {
 	case *ssa.MakeInterface:
 		_ = x
 		return true // a non-nil interface (its dynamic value may be a nil pointer, the interface is not nil)
+	case *ssa.Call:
+		// the error constructors of the standard library never return nil
+		if ci := callOf(x); ci.static != nil {
+			switch ci.static.String() {
+			case "fmt.Errorf", "errors.New":
+				return true
+			}
+		}
 	}
 	return false
 }
@@ -978,6 +986,11 @@ func (pe *pathEnum) walk(stack []inlFrame, b *ssa.BasicBlock, from int, items []
 		}
 		for k := 0; k < 2; k++ {
 			mark := len(pe.trail)
+			// what escaped from inlined frames is a fact of the path, not of the enumeration
+			savedEsc := make(map[*ssa.Function]bool, len(pe.escaped))
+			for f, v := range pe.escaped {
+				savedEsc[f] = v
+			}
 			v := tv
 			if k == 1 {
 				v = fv
@@ -991,6 +1004,7 @@ func (pe *pathEnum) walk(stack []inlFrame, b *ssa.BasicBlock, from int, items []
 			pe.enter(stack, b, b.Succs[k], append(append([]pathItem{}, items...), atom), depth+1)
 			delete(pe.decided, key)
 			pe.undoTo(mark)
+			pe.escaped = savedEsc
 		}
 	default:
 		pe.endPath(items, fmt.Sprintf("?%T", last))
